@@ -48,4 +48,25 @@ META = {
         "trusted_base": ["icalendar component['UID'] lookup"],
         "not_decided": ["UID equivalence classes (case, escapes)"],
     },
+    "C04": {
+        "explanation": "Ordering / ownership facts decided on the CFG: (A1/A2) file-open typestate - every write-mode open in the "
+                       "store layer targets a temporary name that is then os.replace()d onto its target on every normal path; (B1) "
+                       "objects are added before the index entry / ref naming them (must-pass-through); (B2) reachability - the tree "
+                       "store's read API never opens the working-tree file; (B3) index mutations only inside locked_index, whose "
+                       "__exit__ aborts on every error path. States inside dulwich calls are not decided.",
+        "trusted_base": ["POSIX rename atomicity", "dulwich GitFile (lock file + rename)", "dulwich loose-object writes are atomic",
+                         "do_commit updates the ref by lock-file rename"],
+        "not_decided": ["intermediate on-disk states inside dulwich calls", "fsync/durability of acknowledged writes"],
+    },
+    "C05": {
+        "explanation": "Lock-discipline analysis (the statically decidable part of C05): (L0) every index mutation, working-tree "
+                       "change and commit of the tree store lies inside `with locked_index(self.repo.index_path())` and the "
+                       "FileLocked->LockedError->ResourceLocked->423 chain exists; (L1) the reads a refusal depends on lie inside the "
+                       "same critical section; (L2) the bare store's read-modify-commit has a lock or a compare-and-set on the "
+                       "observed head; (L3) shared uid maps are mutated under a lock. L1-L3 are violated on the pinned tree and are "
+                       "recorded as known findings (each reproduced with a forced two-thread schedule); the linearizability statement "
+                       "itself quantifies over schedules and is not decided - it is refuted by these necessary conditions.",
+        "trusted_base": ["dulwich GitFile raises FileLocked when <index>.lock exists", "asyncio.to_thread runs in a worker thread"],
+        "not_decided": ["the set of interleavings actually possible", "cross-process behaviour beyond the index lock"],
+    },
 }
